@@ -129,6 +129,93 @@ pub fn check_subject(s: &Subject, api: Api, range: Rng) -> Vec<(String, String)>
     bad
 }
 
+/// lookups after a transient stream failure: whatever a lookup returns as Ok must be the tile, and its
+/// reads must stay inside the tile's range (a stale cursor left behind by the failed call shows here)
+pub fn check_transient(s: &Subject, api: Api) -> (Vec<(String, String)>, u64) {
+    use crate::env::Transient;
+    let mut bad = Vec::new();
+    let Ok(p) = read_archive(&s.bytes, 1 << 22) else { return (bad, 0) };
+    let ids: Vec<u64> = p.tiles.keys().copied().take(4).collect();
+    if ids.is_empty() {
+        return (bad, 0);
+    }
+    let seq: Vec<u64> = ids.iter().chain(ids.iter()).chain(ids.iter().rev()).copied().collect();
+    let data_off = p.header.data_offset;
+    // one session; returns per-lookup (id, result, read ranges) and the number of calls used by open
+    let session = |ch: Box<dyn crate::env::Chooser>| -> Result<(usize, usize, Vec<(u64, Result<Option<Vec<u8>>, String>, Vec<(u64, u64)>)>), String> {
+        let hd = Handle::new(s.bytes.clone(), ch);
+        let r = catch(|| -> Result<(usize, Vec<(u64, Result<Option<Vec<u8>>, String>, Vec<(u64, u64)>)>), String> {
+            let mut out = Vec::new();
+            match api {
+                Api::Sync => {
+                    let mut pm = PMTiles::from_reader(hd.sync()).map_err(|e| e.to_string())?;
+                    let oc = hd.calls();
+                    hd.clear_log();
+                    for id in seq.iter() {
+                        let g = pm.get_tile_by_id(*id).map_err(|e| e.to_string());
+                        out.push((*id, g, read_ranges(&hd.log())));
+                        hd.clear_log();
+                    }
+                    Ok((oc, out))
+                }
+                Api::Async => {
+                    let mut pm = block_on(PMTiles::from_async_reader(hd.asyn())).map_err(|e| e.to_string())?;
+                    let oc = hd.calls();
+                    hd.clear_log();
+                    for id in seq.iter() {
+                        let g = block_on(pm.get_tile_by_id_async(*id)).map_err(|e| e.to_string());
+                        out.push((*id, g, read_ranges(&hd.log())));
+                        hd.clear_log();
+                    }
+                    Ok((oc, out))
+                }
+            }
+        });
+        match r {
+            Ok(Ok((oc, out))) => Ok((oc, hd.calls(), out)),
+            Ok(Err(e)) => Err(e),
+            Err(pn) => Err(format!("PANIC {pn}")),
+        }
+    };
+    let Ok((open_calls, total, _)) = session(Box::new(DefaultChooser)) else { return (bad, 0) };
+    let mut n = 0u64;
+    for fail_at in open_calls..total {
+        for short in [None, Some(1usize), Some(2)] {
+            // the short transfer (if any) hits the call right before the failing one
+            let short_at = short.and_then(|sz| if fail_at > open_calls { Some((fail_at - 1, sz)) } else { None });
+            if short.is_some() && short_at.is_none() {
+                continue;
+            }
+            n += 1;
+            match session(Box::new(Transient { short_at, fail_at })) {
+                Ok((_, _, lookups)) => {
+                    for (k, (id, got, rr)) in lookups.iter().enumerate() {
+                        let (o, l) = p.tiles[id];
+                        let want = (data_off + o, data_off + o + u64::from(l));
+                        let tag = format!("[{} transient failure at call {fail_at}, short {short_at:?}] lookup #{k} of id {id}", api.name());
+                        for r in rr {
+                            if r.0 < want.0 || r.1 > want.1 {
+                                bad.push(("lookup-after-failure-reads-outside-tile".to_string(), format!("{tag} read [{},{}), the tile occupies [{},{})", r.0, r.1, want.0, want.1)));
+                            }
+                        }
+                        match got {
+                            Ok(Some(b)) if b.as_slice() == &s.bytes[want.0 as usize..want.1 as usize] => {}
+                            Err(_) => {}
+                            other => bad.push(("lookup-after-failure-wrong-bytes".to_string(), format!("{tag} returned {:?}", other.as_ref().map(|o| o.as_ref().map(|b| crate::report::brief(b)))))),
+                        }
+                    }
+                }
+                Err(e) if e.starts_with("PANIC") => bad.push(("lookup-after-failure-panic".to_string(), e)),
+                Err(_) => {}
+            }
+            if bad.len() > 8 {
+                return (bad, n);
+            }
+        }
+    }
+    (bad, n)
+}
+
 pub fn subjects(thorough: bool) -> Vec<Subject> {
     let mut v = Vec::new();
     for c in COMPS {
@@ -172,7 +259,7 @@ fn ranges_for(s: &Subject) -> Vec<Rng> {
 pub fn run(tier: &str) -> i32 {
     let rep = Report::new("C20", tier, "exploration");
     let thorough = rep.thorough();
-    rep.rule("library-written archives (small, alternating duplicates, leaf spill; 4 compressions) and the foreign product of C03 (section permutations so that tile data directly follows each directory/metadata section, gaps filled with a sentinel, depth 1-3, 4 compressions), opened in full and with three range filters through the sync and the async reader over a recording stream, followed by a lookup of EVERY addressed id and of absent neighbours; oracle on the bytes returned by the stream: open touches only header, metadata, root and leaf sections and never the tile-data section; a lookup's returned ranges unite to exactly the tile's range; absent ids read nothing; non-trivial = archives with >= 1 tile");
+    rep.rule("library-written archives (small, alternating duplicates, leaf spill; 4 compressions) and the foreign product of C03 (section permutations so that tile data directly follows each directory/metadata section, gaps filled with a sentinel, depth 1-3, 4 compressions), opened in full and with three range filters through the sync and the async reader over a recording stream, followed by a lookup of EVERY addressed id and of absent neighbours; oracle on the bytes returned by the stream: open touches only header, metadata, root and leaf sections and never the tile-data section; a lookup's returned ranges unite to exactly the tile's range; absent ids read nothing; additionally sessions of lookups with ONE transient stream failure at every call index (optionally after a 1- or 2-byte short read): every later Ok lookup returns the tile and reads inside its range; non-trivial = archives with >= 1 tile");
     rep.assume("how often or in how many calls a section is read is not constrained; only which bytes are returned to the library");
     let subs = subjects(thorough);
     let res: Vec<(usize, Api, Rng, Vec<(String, String)>)> = subs
@@ -201,6 +288,20 @@ pub fn run(tier: &str) -> i32 {
             rep.violation(format!("{k}/{}", api.name()), format!("[{}] {d}", subs[i].name), json!({"kind":"lazy","subject":subs[i].name,"api":api.name(),"archive":subs[i].case,"range":format!("{r:?}")}));
         }
     }
+    // transient failures during lookups (small subjects only: the session is replayed once per call index)
+    let small: Vec<&Subject> = subs.iter().filter(|s| s.bytes.len() < 4000).step_by(if thorough { 1 } else { 37 }).collect();
+    let tres: Vec<(usize, Api, Vec<(String, String)>, u64)> = small
+        .par_iter()
+        .enumerate()
+        .flat_map_iter(|(i, s)| APIS.into_iter().map(move |api| { let (b, n) = check_transient(s, api); (i, api, b, n) }).collect::<Vec<_>>())
+        .collect();
+    rep.count("transient_failure_sessions", tres.iter().map(|t| t.3).sum());
+    rep.eval(tres.iter().map(|t| t.3).sum());
+    for (i, api, bad, _) in tres {
+        for (k, d) in bad.into_iter().take(3) {
+            rep.violation(format!("{k}/{}", api.name()), format!("[{}] {d}", small[i].name), json!({"kind":"lazy","subject":small[i].name,"api":api.name(),"archive":small[i].case,"range":"transient"}));
+        }
+    }
     rep.force_sample(json!({"subject":subs[subs.len() / 2].name,"archive":subs[subs.len() / 2].case}));
     rep.force_sample(json!({"subject":subs[0].name,"archive":subs[0].case}));
     rep.finish()
@@ -215,6 +316,9 @@ pub fn replay(case: &Value) -> Vec<String> {
         for r in ranges_for(s) {
             out.extend(check_subject(s, api, r).into_iter().map(|(k, d)| format!("{k}: {d}")));
         }
+    }
+    for api in APIS {
+        out.extend(check_transient(s, api).0.into_iter().map(|(k, d)| format!("{k}: {d}")));
     }
     let _ = Spec::from_json(&case["archive"]);
     out
